@@ -82,20 +82,27 @@ fn main() {
         macro_rules! run {
             ($T:ty, $nonce:expr, $name:expr, $pos:expr) => {{
                 let mut c = <$T>::new(GenericArray::from_slice(&key), GenericArray::from_slice($nonce));
-                let mut buf = bytes(&mut s, 150);
+                let mut buf = bytes(&mut s, 37 + 330);
                 c.apply_keystream(&mut buf[..37]);
                 c.seek($pos);
                 c.apply_keystream(&mut buf[37..]);
-                let p: u64 = c.current_pos();
-                out($name, fold(&buf) ^ p);
+                let p: u128 = c.current_pos();
+                out($name, fold(&buf) ^ (p as u64) ^ ((p >> 64) as u64));
             }};
         }
         run!(ChaCha20, &n8, "chacha20", 0x3f_ffff_ff70u64);
         run!(ChaCha8, &n8, "chacha8", 70u64);
         run!(ChaCha12, &n8, "chacha12", 0xffff_ffff_ffff_ff00u64);
-        run!(Ietf, &n12, "ietf", 0x3f_ffff_ff50u64);
+        run!(Ietf, &n12, "ietf", 0x3f_ffff_fe30u64);
         run!(XChaCha20, &n24, "xchacha20", 1u64);
         run!(XChaCha8, &n24, "xchacha8", 0x40_0000_0040u64);
+        // the 4-block path starting exactly 1, 2, 3, 4 blocks before the low counter word wraps (block-aligned seek: no lazy
+        // single block first), so that the carry falls between every pair of lanes
+        for k in 1u64..=4 {
+            run!(ChaCha20, &n8, "chacha20@carry", ((1u64 << 32) - k) * 64);
+            run!(XChaCha20, &n24, "xchacha20@carry", ((1u64 << 32) - k) * 64);
+            run!(ChaCha8, &n8, "chacha8@carry", ((3u64 << 32) - k) * 64);
+        }
     }
     // --- hashes and Threefish --------------------------------------------------------------------------------------
     for _ in 0..(if on("hash") { scale } else { 0 }) {
